@@ -224,7 +224,10 @@ def drive(requests: List[dict], timeout: int = 1800) -> List[dict]:
         raise InfraError("driver timeout")
     if p.returncode != 0:
         raise InfraError(f"driver crashed rc={p.returncode}: {p.stderr.decode('utf-8', 'replace')[-2000:]}")
-    lines = p.stdout.decode("utf-8").splitlines()
+    # one reply per "\n"-terminated line (str.splitlines would also break at \x0b, \x1c-\x1e, \x85, \u2028 inside a reply)
+    lines = p.stdout.decode("utf-8").split("\n")
+    if lines and lines[-1] == "":
+        lines.pop()
     if len(lines) != len(requests):
         raise InfraError(f"driver returned {len(lines)} replies for {len(requests)} requests")
     return [json.loads(l) for l in lines]
